@@ -13,6 +13,19 @@ import SpecVerif.Proofs.HeapReach
 the set `T` of old objects a copy may *traverse*: children of allowed objects
 are allowed, children of traversable objects are traversable, and the value of
 a `do_not_copy` attribute of a traversable instance is allowed.
+
+Contents, in order:
+1. `Good`, `HInv`, `World`, `PS` and its rules; `copyRef_ps` / `deepcopy_ps`;
+2. `DncShared`, `world_reach` (the world of one `deepcopy`);
+3. inversion lemmas for successful runs (`bind_ok_inv`, `alloc_run`, ...),
+   `copyFields_run`, `deepcopy_inst_run` (`dnc_by_identity`);
+4. `mutateValue = mutateValue0` without keyword attributes, `installDefault`,
+   `delAttr_eq_install`, `setAttr_eq_install` (`reset_eq_fresh_partial`);
+5. value tracking `FN` (new and not MISSING), `delAttr_run_fresh`,
+   `resetAttr_run_fresh` (`reset_is_fresh`);
+6. one `_ps` lemma per model function run by the constructor and by the
+   helpers not called in place, `runOp_ps` (`result_disjoint`, `init_disjoint`);
+7. the per-field judgement `SF` and `construct_fields` (`init_fresh`).
 -/
 set_option linter.unusedSectionVars false
 set_option linter.unusedVariables false
@@ -2203,6 +2216,10 @@ stored by reference). -/
 def AllowedFrom (X : Ctx) (h : Heap) (S : Ref → Prop) (j : Nat) : Prop :=
   DncAny X h j ∨ ∃ v, S v ∧ Reach h v j
 
+/-- Values supplied to `Cls(**kw)` for attributes declared `do_not_copy`. -/
+def DncArg (X : Ctx) (c : Nat) (kw : List (Nat × Ref)) (v : Ref) : Prop :=
+  ∃ d, d ∈ (X.cd c).attrs ∧ d.dnc = true ∧ alGet d.name kw = some v
+
 theorem world_any (X : Ctx) (h : Heap) (S : Ref → Prop) :
     World X h (AllowedFrom X h S) TAll := by
   refine ⟨fun _ _ => trivial, ?_, fun _ _ _ _ r _ => good_tall _ r, ?_⟩
@@ -2231,6 +2248,13 @@ theorem not_dncAny_of_noAttrDnc {X : Ctx} (hN : NoAttrDnc X) {h : Heap} {j : Nat
   rw [hN.attr? c a d hd] at hdnc
   cases hdnc
 
+/-- The references an element operation receives. -/
+def ElemOp.args : ElemOp → List Ref
+  | .add item key _ attrs => item :: key :: attrs.map (fun av => av.2)
+  | .upd key item _ attrs => item :: key :: attrs.map (fun av => av.2)
+  | .tr key _ _ _ => [key]
+  | .rm key _ => [key]
+
 /-- The arguments of an operation that may be stored by reference. -/
 def Op.args : Op → List Ref
   | .construct _ kw => kw.map (fun av => av.2)
@@ -2240,63 +2264,11 @@ def Op.args : Op → List Ref
   | .updateAttr _ _ v kw _ => v :: kw.map (fun av => av.2)
   | .transformAttr _ _ _ _ _ => []
   | .resetAttr _ _ _ => []
-  | .elem _ _ eop _ =>
-    (match eop with
-      | .add item key _ attrs => item :: key :: attrs.map (fun av => av.2)
-      | .upd key item _ attrs => item :: key :: attrs.map (fun av => av.2)
-      | .tr key _ _ _ => [key]
-      | .rm key _ => [key])
+  | .elem _ _ eop _ => eop.args
   | .update _ kw _ => kw.map (fun av => av.2)
   | .transform _ _ _ => []
   | .reset _ _ => []
   | .deepcopy _ => []
-
-/-- The copy-on-write operations covered by `result_disjoint_partial`. -/
-def Op.cowCovered : Op → Bool
-  | .construct _ _ => true
-  | .withAttr _ _ _ kw ip => kw.isEmpty && !ip
-  | .resetAttr _ _ ip => !ip
-  | .reset _ ip => !ip
-  | .deepcopy _ => true
-  | _ => false
-
-/-- The covered operations keep the provenance invariant and return a new
-object (or a scalar), provided their arguments are allowed. -/
-theorem runOp_ps (X₀ : Ctx) (hX : NoClassDnc X₀) {h₀ : Heap} {A : Nat → Prop}
-    (hW : World X₀ h₀ A TAll) (op : Op) (hcov : op.cowCovered = true)
-    (hargs : ∀ v, v ∈ op.args → Good h₀.length A v) :
-    PS h₀ A (runOp X₀.close op) (FreshRef h₀.length) := by
-  have hXc := noClassDnc_close X₀ hX
-  have hWc : World X₀.close h₀ A TAll := hW.close
-  have hM := makeGood_close X₀ hX hW
-  unfold runOp
-  refine PS.getHeap.bind (fun h _ => ?_)
-  refine (guardM_ps _ _).bind (fun _ _ => ?_)
-  cases op with
-  | construct c kw =>
-    refine (hM c kw ?_).mono (fun r hr => hr.fn.1)
-    intro av hav
-    exact hargs av.2 (by simp only [Op.args]; exact List.mem_map_of_mem hav)
-  | withAttr r a v kw ip =>
-    simp only [Op.cowCovered, Bool.and_eq_true, Bool.not_eq_true', List.isEmpty_iff] at hcov
-    obtain ⟨rfl, rfl⟩ := hcov
-    exact withAttr_ps X₀.close hXc hWc hM r a v (hargs v (by simp [Op.args]))
-  | resetAttr r a ip =>
-    simp only [Op.cowCovered, Bool.not_eq_true'] at hcov
-    subst hcov
-    exact resetAttr_ps X₀.close hXc hWc hM r a
-  | reset r ip =>
-    simp only [Op.cowCovered, Bool.not_eq_true'] at hcov
-    subst hcov
-    exact reset_ps X₀.close hXc hWc hM r
-  | deepcopy r => exact deepcopy_ps X₀.close hXc hWc r (good_tall _ _)
-  | setattr _ _ _ => cases hcov
-  | delattr _ _ => cases hcov
-  | updateAttr _ _ _ _ _ => cases hcov
-  | transformAttr _ _ _ _ _ => cases hcov
-  | elem _ _ _ _ => cases hcov
-  | update _ _ _ => cases hcov
-  | transform _ _ _ => cases hcov
 
 /-- Callbacks that return their argument or a scalar (no new list re-using old items). -/
 def Cb.plain : Cb → Bool
@@ -2338,6 +2310,1262 @@ def NodeRel (R : Nat → Nat → Prop) : Node → Node → Prop
 def SameContent (h₁ : Heap) (r₁ : Ref) (h₂ : Heap) (r₂ : Ref) : Prop :=
   ∃ R : Nat → Nat → Prop, RefRel R r₁ r₂ ∧
     ∀ x y, R x y → ∃ n₁ n₂, h₁[x]? = some n₁ ∧ h₂[y]? = some n₂ ∧ NodeRel R n₁ n₂
+
+
+/-! ## Provenance of the keyword-attribute steps of `mutate_value` and of the remaining helpers -/
+
+section og
+variable {α β : Type} {h₀ : Heap} {A : Nat → Prop}
+
+def IsObj (r : Ref) : Prop := ∃ j, r = .obj j
+
+/-- `copy.deepcopy` of an object is an object. -/
+theorem copyRef_isObj {n₀ : Nat} {W : Nat → Prop} (X : Ctx) (fuel i : Nat) (m : Memo) :
+    Safe n₀ W (copyRef X fuel (.obj i) m) (fun p => IsObj p.1) := by
+  cases fuel with
+  | zero => unfold copyRef; exact Safe.throwPy _
+  | succ fuel =>
+    unfold copyRef
+    split
+    · exact Safe.pure ⟨_, rfl⟩
+    · refine (Safe.getNode i).bind (fun node _ => ?_)
+      cases node with
+      | list xs =>
+        refine (copyList_frame _ (copyRef_frame X fuel) xs m).bind (fun p _ => ?_)
+        obtain ⟨ys, m1⟩ := p
+        exact (Safe.alloc _).bind (fun j hj => Safe.pure ⟨_, rfl⟩)
+      | dict kvs =>
+        refine (copyKVs_frame _ (copyRef_frame X fuel) kvs m).bind (fun p _ => ?_)
+        obtain ⟨ys, m1⟩ := p
+        exact (Safe.alloc _).bind (fun j hj => Safe.pure ⟨_, rfl⟩)
+      | set xs => exact (Safe.alloc _).bind (fun j hj => Safe.pure ⟨_, rfl⟩)
+      | inst c thaw fs =>
+        simp only
+        refine Safe.ite (fun _ => Safe.pure ⟨_, rfl⟩) (fun _ => ?_)
+        refine (Safe.alloc _).bind (fun j hj => ?_)
+        refine (copyFields_frame _ (copyRef_frame X fuel) (X.cd c) j c thaw hj fs [] m).bind
+          (fun m1 _ => ?_)
+        have hpc : Safe n₀ W (if (X.cd c).postCopy = true then callCb .postCopy else pure ())
+            (fun _ => True) :=
+          Safe.ite (fun _ => Safe.callCb _) (fun _ => Safe.pure trivial)
+        exact hpc.bind (fun _ _ => Safe.pure ⟨_, rfl⟩)
+
+theorem protect_nm {n₀ : Nat} {W : Nat → Prop} (X : Ctx) (r : Ref) (hr : r ≠ .sc .missing) :
+    Safe n₀ W (protect X r) (fun r' => r' ≠ .sc .missing) := by
+  unfold protect
+  cases r with
+  | sc s => exact Safe.pure hr
+  | obj i =>
+    simp only
+    unfold deepcopy
+    refine Safe.getHeap.bind (fun h _ => ?_)
+    refine (copyRef_isObj X _ i []).bind (fun p hp => ?_)
+    obtain ⟨r', m⟩ := p
+    obtain ⟨j, hj⟩ := hp
+    simp only at hj
+    subst hj
+    exact Safe.pure (fun h => by cases h)
+
+/-- Combine a provenance fact with a frame-logic fact about the same computation. -/
+theorem PS.and_safe {m : M α} {Q Q' : α → Prop} (h : PS h₀ A m Q)
+    (h' : Safe h₀.length (fun _ => False) m Q') : PS h₀ A m (fun a => Q a ∧ Q' a) := by
+  intro s hs
+  obtain ⟨hp, hq⟩ := h s hs
+  obtain ⟨_, hq'⟩ := h' s hs.le
+  exact ⟨hp, fun a ha => ⟨hq a ha, hq' a ha⟩⟩
+
+/-! ### Callbacks applied to a value that is not (yet) allowed -/
+
+theorem applyCb_og (X : Ctx) (hW : World X h₀ A TAll) (cb : Cb) (v : Ref)
+    (hcb : cb.plain = true ∨ Good h₀.length A v) :
+    PS h₀ A (applyCb cb v) (fun r => r = v ∨ FreshRef h₀.length r) := by
+  rcases hcb with hcb | hv
+  · unfold applyCb
+    cases cb with
+    | ident => exact PS.pure (Or.inl rfl)
+    | const s => exact PS.pure (Or.inr (freshRef_sc s))
+    | inc =>
+      cases v with
+      | sc s => cases s <;> first | exact PS.throwPy _ | exact PS.pure (Or.inr (freshRef_sc _))
+      | obj i => exact PS.throwPy _
+    | absInt =>
+      cases v with
+      | sc s =>
+        cases s <;> first | exact PS.pure (Or.inl rfl) | exact PS.pure (Or.inr (freshRef_sc _))
+      | obj i => exact PS.pure (Or.inl rfl)
+    | append e => cases hcb
+    | rebuild => cases hcb
+  · exact ((applyCb_ps X hW cb v hv).and_safe (applyCb_safe cb v)).mono (fun r hr => hr.2)
+
+/-- The optional callback is plain, or its argument is allowed. -/
+def CbOK (n₀ : Nat) (A : Nat → Prop) (cb : Option (CbKind × Cb)) (v : Ref) : Prop :=
+  (∀ k f, cb = some (k, f) → f.plain = true) ∨ Good n₀ A v
+
+theorem mvApply_og (X : Ctx) (hW : World X h₀ A TAll) (cb : Option (CbKind × Cb)) (v : Ref)
+    (hcb : CbOK h₀.length A cb v) :
+    PS h₀ A (mvApply cb v) (fun r => r = v ∨ FreshRef h₀.length r) := by
+  unfold mvApply
+  split
+  · rename_i k f
+    unfold invoke
+    refine (PS.callCb k).bind (fun _ _ => applyCb_og X hW f v ?_)
+    rcases hcb with h | h
+    · exact Or.inl (h k f rfl)
+    · exact Or.inr h
+  · exact PS.pure (Or.inl rfl)
+
+/-! ### Steps 3/4 with the `mutate_safe` flag -/
+
+theorem defaultConstruct_fresh (X : Ctx) (hM : MakeGood h₀ A X) (k : Kind)
+    (attrs : List (Nat × Ref)) (ha : ∀ av, av ∈ attrs → Good h₀.length A av.2) :
+    PS h₀ A (defaultConstruct X k attrs) (fun p => FN h₀.length p.1) := by
+  unfold defaultConstruct
+  cases k with
+  | int => exact PS.pure ⟨freshRef_sc _, fun h => by cases h⟩
+  | str => exact PS.pure ⟨freshRef_sc _, fun h => by cases h⟩
+  | listInt => exact (createColl_ps _).bind (fun r hr => PS.pure hr.fn)
+  | listSpec c => exact (createColl_ps _).bind (fun r hr => PS.pure hr.fn)
+  | dictStrInt => exact (createColl_ps _).bind (fun r hr => PS.pure hr.fn)
+  | setInt => exact (createColl_ps _).bind (fun r hr => PS.pure hr.fn)
+  | spec c => exact (hM c _ (mem_filter_good ha)).bind (fun r hr => PS.pure hr.fn)
+
+theorem dictAsCtorArgs_fresh (X : Ctx) (hM : MakeGood h₀ A X) (ctor : Option Kind) (value : Ref)
+    (attrs : List (Nat × Ref)) (ha : ∀ av, av ∈ attrs → Good h₀.length A av.2) :
+    PS h₀ A (dictAsCtorArgs X ctor value attrs)
+      (fun o => ∀ r, o = some r → FN h₀.length r) := by
+  unfold dictAsCtorArgs
+  refine PS.getHeap.bind (fun h _ => ?_)
+  have hnone : PS h₀ A (pure none : M (Option Ref))
+      (fun o => ∀ r, o = some r → FN h₀.length r) :=
+    PS.pure (fun r hr => by cases hr)
+  split
+  · split
+    · refine PS.ite (fun _ => hnone) (fun _ => ?_)
+      refine PS.ite (fun _ => PS.throwPy _) (fun _ => ?_)
+      split
+      · exact PS.ite (fun _ => PS.pure (fun r hr => by
+          cases hr; exact ⟨freshRef_sc _, fun h => by cases h⟩)) (fun _ => PS.throwPy _)
+      · exact PS.ite (fun _ => PS.pure (fun r hr => by
+          cases hr; exact ⟨freshRef_sc _, fun h => by cases h⟩)) (fun _ => PS.throwPy _)
+      · exact (hM _ _ (mem_filter_good ha)).bind
+          (fun r hr => PS.pure (fun r' hr' => by cases hr'; exact hr.fn))
+      · exact PS.throwPy _
+    · exact hnone
+  · exact hnone
+
+/-- After steps 3/4: the incoming value with `safe = p.inplace`, or a new value;
+never MISSING when a constructor is available. -/
+theorem mvConstruct_og (X : Ctx) (hM : MakeGood h₀ A X) (p : MV) (value : Ref)
+    (ha : ∀ av, av ∈ p.attrs → Good h₀.length A av.2) :
+    PS h₀ A (mvConstruct X p value)
+      (fun r => ((r.1 = value ∧ r.2.1 = p.inplace) ∨ FreshRef h₀.length r.1) ∧
+        (p.ctor ≠ none → r.1 ≠ .sc .missing)) := by
+  unfold mvConstruct
+  refine (dictAsCtorArgs_fresh X hM _ _ _ ha).bind (fun o ho => ?_)
+  split
+  · exact PS.pure ⟨Or.inr (ho _ rfl).1, fun _ => (ho _ rfl).2⟩
+  · refine PS.ite (fun _ => ?_) (fun hne => PS.pure ⟨Or.inl ⟨rfl, rfl⟩, fun _ => hne⟩)
+    split
+    · exact (defaultConstruct_fresh X hM _ _ ha).bind
+        (fun r hr => PS.pure ⟨Or.inr hr.1, fun _ => hr.2⟩)
+    · rename_i hnone
+      exact PS.pure ⟨Or.inl ⟨rfl, rfl⟩, fun hc => (hc hnone).elim⟩
+
+/-! ### Steps 5 and 7 -/
+
+theorem setAttrs_ps (X : Ctx) (hX : NoClassDnc X) (hW : World X h₀ A TAll) (hM : MakeGood h₀ A X)
+    {obj : Ref} (ho : FreshRef h₀.length obj) :
+    ∀ kw : List (Nat × Ref), (∀ av, av ∈ kw → Good h₀.length A av.2) →
+      PS h₀ A (setAttrs X obj kw) (fun _ => True) := by
+  intro kw
+  induction kw with
+  | nil => intro _; exact PS.pure trivial
+  | cons av rest ih =>
+    intro hkw
+    obtain ⟨a, v⟩ := av
+    unfold setAttrs
+    have h1 : PS h₀ A (if (v != .sc .missing) = true then setAttr X obj a v false else pure ())
+        (fun _ => True) :=
+      PS.ite (fun _ => setAttr_ps X hX hW hM a v false ho (hkw (a, v) List.mem_cons_self))
+        (fun _ => PS.pure trivial)
+    exact h1.bind (fun _ _ => ih (fun x hx => hkw x (List.mem_cons_of_mem _ hx)))
+
+theorem applyAttrTransforms_ps (X : Ctx) (hX : NoClassDnc X) (hW : World X h₀ A TAll)
+    (hM : MakeGood h₀ A X) {obj : Ref} (ho : FreshRef h₀.length obj) :
+    ∀ kwf, PS h₀ A (applyAttrTransforms X obj kwf) (fun _ => True) := by
+  intro kwf
+  induction kwf with
+  | nil => exact PS.pure trivial
+  | cons af rest ih =>
+    obtain ⟨a, f⟩ := af
+    unfold applyAttrTransforms
+    refine (getAttrD_ps X hW obj a ho.good).bind (fun cur hcur => ?_)
+    refine (invoke_ps X hW _ _ _ hcur).bind (fun tv htv => ?_)
+    have h1 : PS h₀ A (if (tv != .sc .missing) = true then setAttr X obj a tv false else pure ())
+        (fun _ => True) :=
+      PS.ite (fun _ => setAttr_ps X hX hW hM a tv false ho htv) (fun _ => PS.pure trivial)
+    exact h1.bind (fun _ _ => ih)
+
+theorem rollbackOnError_ps {r : Ref} {body : M α} {Q : α → Prop}
+    (hr : FreshRef h₀.length r) (hb : PS h₀ A body Q) : PS h₀ A (rollbackOnError r body) Q := by
+  unfold rollbackOnError
+  cases r with
+  | sc s => exact hb
+  | obj i =>
+    refine (PS.getNode i).bind (fun node hn => ?_)
+    cases node with
+    | inst c t fs => exact PS.onError hb (PS.write _ (hr i rfl) (hn.2 (hr i rfl)))
+    | list _ => exact hb
+    | dict _ => exact hb
+    | set _ => exact hb
+
+theorem guarded_ps (X : Ctx) {v : Ref} {body : M α} {Q : α → Prop}
+    (hv : FreshRef h₀.length v) (hb : PS h₀ A body Q) : PS h₀ A (guarded X false v body) Q := by
+  unfold guarded
+  simp only [Bool.false_eq_true, if_false]
+  exact thawed_ps X hv (rollbackOnError_ps hv hb)
+
+/-- The value that will be edited: the safe one itself, or a copy. -/
+theorem safeOrProtect_ps (X : Ctx) (hX : NoClassDnc X) (hW : World X h₀ A TAll) (value : Ref)
+    (safe : Bool) (hv : safe = true → FreshRef h₀.length value) :
+    PS h₀ A (if safe = true then pure value else protect X value)
+      (fun r => FreshRef h₀.length r ∧ (value ≠ .sc .missing → r ≠ .sc .missing)) := by
+  refine PS.ite (fun hs => PS.pure ⟨hv hs, id⟩) (fun _ => ?_)
+  by_cases hm : value = .sc .missing
+  · exact (protect_ps X hX hW value (good_tall _ _)).mono (fun r hr => ⟨hr, fun h => (h hm).elim⟩)
+  · exact ((protect_ps X hX hW value (good_tall _ _)).and_safe (protect_nm X value hm)).mono
+      (fun r hr => ⟨hr.1, fun _ => hr.2⟩)
+
+theorem mvAttrs_og (X : Ctx) (hX : NoClassDnc X) (hW : World X h₀ A TAll) (hM : MakeGood h₀ A X)
+    (p : MV) (hp : p.inplace = false) (ha : ∀ av, av ∈ p.attrs → Good h₀.length A av.2)
+    (value : Ref) (safe used : Bool) (hv : safe = true → FreshRef h₀.length value) :
+    PS h₀ A (mvAttrs X p value safe used)
+      (fun r => (r.2 = true → FreshRef h₀.length r.1) ∧ (r.1 = value ∨ FreshRef h₀.length r.1) ∧
+        (value ≠ .sc .missing → r.1 ≠ .sc .missing)) := by
+  unfold mvAttrs
+  refine PS.ite (fun _ => ?_) (fun _ => ?_)
+  · refine (safeOrProtect_ps X hX hW value safe hv).bind (fun value' hv' => ?_)
+    rw [hp]
+    have hattrs : ∀ av, av ∈ (if used = true then [] else p.attrs) → Good h₀.length A av.2 := by
+      intro av hav
+      split at hav
+      · cases hav
+      · exact ha av hav
+    exact (guarded_ps X hv'.1 (setAttrs_ps X hX hW hM hv'.1 _ hattrs)).bind
+      (fun _ _ => PS.pure ⟨fun _ => hv'.1, Or.inr hv'.1, hv'.2⟩)
+  · exact PS.ite (fun _ => PS.throwPy _) (fun _ => PS.pure ⟨hv, Or.inl rfl, id⟩)
+
+theorem mvAttrTransforms_og (X : Ctx) (hX : NoClassDnc X) (hW : World X h₀ A TAll)
+    (hM : MakeGood h₀ A X) (p : MV) (hp : p.inplace = false) (value : Ref) (safe : Bool)
+    (hv : safe = true → FreshRef h₀.length value) :
+    PS h₀ A (mvAttrTransforms X p value safe)
+      (fun r => (r = value ∨ FreshRef h₀.length r) ∧
+        (value ≠ .sc .missing → r ≠ .sc .missing)) := by
+  unfold mvAttrTransforms
+  refine PS.ite (fun _ => ?_) (fun _ => PS.pure ⟨Or.inl rfl, id⟩)
+  refine (safeOrProtect_ps X hX hW value safe hv).bind (fun value' hv' => ?_)
+  rw [hp]
+  exact (guarded_ps X hv'.1 (applyAttrTransforms_ps X hX hW hM hv'.1 _)).bind
+    (fun _ _ => PS.pure ⟨Or.inr hv'.1, hv'.2⟩)
+
+/-- `mutate_value` not in place: the result is the old value itself (nothing was
+applied) or an allowed value; with a constructor and no transform it is not MISSING. -/
+theorem mutateValue_og (X : Ctx) (hX : NoClassDnc X) (hW : World X h₀ A TAll)
+    (hM : MakeGood h₀ A X) (p : MV) (hp : p.inplace = false) (hn : Good h₀.length A p.new)
+    (ha : ∀ av, av ∈ p.attrs → Good h₀.length A av.2)
+    (htr : CbOK h₀.length A p.transform p.old ∨ Good h₀.length A p.old) :
+    PS h₀ A (mutateValue X p)
+      (fun r => (r = p.old ∨ Good h₀.length A r) ∧
+        (p.ctor ≠ none → p.transform = none → r ≠ .sc .missing)) := by
+  unfold mutateValue
+  -- steps 1, 2
+  have h1 : PS h₀ A (mvApply (mvChoose p).2 (mvChoose p).1)
+      (fun r => r = p.old ∨ Good h₀.length A r) := by
+    unfold mvChoose
+    split
+    · exact (mvApply_ps X hW _ _ hn).mono (fun r hr => Or.inr hr)
+    · split
+      · simp only
+        unfold mvApply
+        exact PS.pure (Or.inl rfl)
+      · exact (mvApply_ps X hW _ _ (good_sc _)).mono (fun r hr => Or.inr hr)
+  refine h1.bind (fun v1 hv1 => ?_)
+  refine (mvConstruct_og X hM p v1 ha).bind (fun r2 hr2 => ?_)
+  have hsafe2 : r2.2.1 = true → FreshRef h₀.length r2.1 := by
+    intro hs
+    rcases hr2.1 with ⟨_, h2⟩ | h
+    · rw [hp] at h2; rw [h2] at hs; cases hs
+    · exact h
+  have hog2 : r2.1 = p.old ∨ Good h₀.length A r2.1 := by
+    rcases hr2.1 with ⟨h1', _⟩ | h
+    · rw [h1']; exact hv1
+    · exact Or.inr h.good
+  refine (mvAttrs_og X hX hW hM p hp ha r2.1 r2.2.1 r2.2.2 hsafe2).bind (fun r3 hr3 => ?_)
+  have hog3 : r3.1 = p.old ∨ Good h₀.length A r3.1 := by
+    rcases hr3.2.1 with h | h
+    · rw [h]; exact hog2
+    · exact Or.inr h.good
+  have hcb : CbOK h₀.length A p.transform r3.1 := by
+    rcases hog3 with h | h
+    · rcases htr with htr | htr
+      · rw [h]; exact htr
+      · exact Or.inr (by rw [h]; exact htr)
+    · exact Or.inr h
+  have h4 : PS h₀ A (mvApply p.transform r3.1)
+      (fun r => (r = r3.1 ∨ FreshRef h₀.length r) ∧ (p.transform = none → r = r3.1)) := by
+    refine ((mvApply_og X hW p.transform r3.1 hcb).and ?_)
+    intro s hs
+    refine ⟨((mvApply_og X hW p.transform r3.1 hcb) s hs).1, ?_⟩
+    intro x hx ht
+    rw [ht] at hx
+    unfold mvApply at hx
+    cases hx
+    rfl
+  refine h4.bind (fun v4 hv4 => ?_)
+  have hsafe4 : r3.2 = true → FreshRef h₀.length v4 := by
+    intro hs
+    rcases hv4.1 with h | h
+    · rw [h]; exact hr3.1 hs
+    · exact h
+  have hog4 : v4 = p.old ∨ Good h₀.length A v4 := by
+    rcases hv4.1 with h | h
+    · rw [h]; exact hog3
+    · exact Or.inr h.good
+  refine (mvAttrTransforms_og X hX hW hM p hp v4 r3.2 hsafe4).mono (fun r hr => ⟨?_, ?_⟩)
+  · rcases hr.1 with h | h
+    · rw [h]; exact hog4
+    · exact Or.inr h.good
+  · intro hc ht
+    have h2 := hr2.2 hc
+    have h3 := hr3.2.2 h2
+    have h4' : v4 = r3.1 := hv4.2 ht
+    exact hr.2 (by rw [h4']; exact h3)
+
+/-! ### `prepare_attr_value` / `with_attr` with keyword arguments -/
+
+theorem prepareAttrValue_ps (X : Ctx) (hX : NoClassDnc X) (hW : World X h₀ A TAll)
+    (hM : MakeGood h₀ A X) (d : AttrDecl) (v : Ref) (attrs : List (Nat × Ref))
+    (hv : Good h₀.length A v) (ha : ∀ av, av ∈ attrs → Good h₀.length A av.2) :
+    PS h₀ A (prepareAttrValue X d v attrs) (GN h₀.length A) := by
+  unfold prepareAttrValue
+  refine (mutateValue_og X hX hW hM _ rfl hv ha (Or.inr (good_sc _))).bind (fun v1 hv1 => ?_)
+  have hg : Good h₀.length A v1 := by
+    rcases hv1.1 with h | h
+    · rw [h]; exact good_sc _
+    · exact h
+  split
+  · exact collPrepare_ps X hW hM d _ _ hg
+  · exact PS.pure ⟨hg, hv1.2 (fun h => by cases h) rfl⟩
+
+theorem withAttr_kw_ps (X : Ctx) (hX : NoClassDnc X) (hW : World X h₀ A TAll)
+    (hM : MakeGood h₀ A X) (self : Ref) (a : Nat) (v : Ref) (kw : List (Nat × Ref))
+    (hv : Good h₀.length A v) (ha : ∀ av, av ∈ kw → Good h₀.length A av.2) :
+    PS h₀ A (withAttr X self a v kw false) (FreshRef h₀.length) := by
+  unfold withAttr
+  refine (getInst_ps self).bind (fun p _ => ?_)
+  split
+  · exact PS.throwPy _
+  · refine (prepareAttrValue_ps X hX hW hM _ _ _ hv ha).bind (fun v' hv' => ?_)
+    exact (mutateAttr_ps X hX hW self a v' false true false (fun h => by cases h) hv'.1).mono
+      (fun r hr => hr rfl hv'.2)
+
+/-! ### `update_attr`, `transform_attr` -/
+
+/-- The value of attribute `a` of object `i` in heap `h` (MISSING if there is none). -/
+def attrOf (h : Heap) (i a : Nat) : Ref :=
+  match h[i]? with
+  | some (.inst _ _ fs) => (alGet a fs).getD (.sc .missing)
+  | _ => .sc .missing
+
+/-- What `getattr(self, a, MISSING)` returns: for an old receiver exactly its
+value in the start heap, for a new one an allowed value. -/
+def AttrVal (h₀ : Heap) (A : Nat → Prop) (self : Ref) (a : Nat) (r : Ref) : Prop :=
+  Good h₀.length A r ∨ ∃ i, self = .obj i ∧ i < h₀.length ∧ r = attrOf h₀ i a
+
+theorem getAttrD_val (self : Ref) (a : Nat) :
+    PS h₀ A (getAttrD self a)
+      (fun r => (∀ i, self = .obj i → i < h₀.length → r = attrOf h₀ i a) ∧
+        ((∀ i, self = .obj i → h₀.length ≤ i) → Good h₀.length A r)) := by
+  unfold getAttrD
+  cases self with
+  | sc s => exact PS.pure ⟨fun i h => (by cases h), fun _ => good_sc _⟩
+  | obj i =>
+    refine (PS.getNode i).bind (fun node hn => ?_)
+    have hold : ∀ r : Ref, (i < h₀.length → r = attrOf h₀ i a) →
+        (h₀.length ≤ i → Good h₀.length A r) →
+        (∀ i', Ref.obj i = .obj i' → i' < h₀.length → r = attrOf h₀ i' a) ∧
+        ((∀ i', Ref.obj i = .obj i' → h₀.length ≤ i') → Good h₀.length A r) :=
+      fun r h1 h2 => ⟨fun i' he hlt => by cases he; exact h1 hlt, fun h => h2 (h i rfl)⟩
+    cases node with
+    | inst c t fs =>
+      refine PS.pure (hold _ (fun hlt => ?_) (fun hge => ?_))
+      · unfold attrOf; rw [hn.1 hlt]
+      · cases hv : alGet a fs with
+        | none => exact good_sc _
+        | some v => exact good_of_children_inst (hn.2 hge) _ (alGet_mem hv)
+    | list _ =>
+      exact PS.pure (hold _ (fun hlt => by unfold attrOf; rw [hn.1 hlt]) (fun _ => good_sc _))
+    | dict _ =>
+      exact PS.pure (hold _ (fun hlt => by unfold attrOf; rw [hn.1 hlt]) (fun _ => good_sc _))
+    | set _ =>
+      exact PS.pure (hold _ (fun hlt => by unfold attrOf; rw [hn.1 hlt]) (fun _ => good_sc _))
+
+theorem attr?_name {cd : ClassDecl} {a : Nat} {d : AttrDecl} (h : cd.attr? a = some d) :
+    d.name = a := by
+  unfold ClassDecl.attr? at h
+  have := List.find?_some h
+  simpa using this
+
+/-- `_protect_if_unchanged` not in place: an unchanged value of the (old)
+receiver is copied unless the attribute is `do_not_copy`; the result is allowed. -/
+theorem protectIfUnchanged_ps (X : Ctx) (hX : NoClassDnc X) (hW : World X h₀ A TAll) (d : AttrDecl)
+    (self : Ref) (v : Ref)
+    (hd : ∀ i c t fs, self = .obj i → h₀[i]? = some (.inst c t fs) →
+      (X.cd c).attr? d.name = some d)
+    (hv : AttrVal h₀ A self d.name v) :
+    PS h₀ A (protectIfUnchanged X d self false v false) (Good h₀.length A) := by
+  unfold protectIfUnchanged
+  refine (getAttrD_val self d.name).bind (fun cur hcur => ?_)
+  refine PS.ite (fun hc => ?_)
+    (fun _ => (protect_ps X hX hW v (good_tall _ _)).mono (fun r hr => hr.good))
+  rcases hv with hv | ⟨i, rfl, hlt, hvi⟩
+  · exact PS.pure hv
+  · refine PS.pure ?_
+    have hcur' := hcur.1 i rfl hlt
+    simp only [Bool.false_or, Bool.or_false, Bool.or_eq_true, decide_eq_true_eq,
+      bne_iff_ne, ne_eq] at hc
+    rcases hc with (hdnc | hm) | hne
+    · -- `do_not_copy` attribute: the receiver's value is allowed
+      rw [hvi]
+      unfold attrOf
+      cases hn : h₀[i]? with
+      | none => exact good_sc _
+      | some node =>
+        cases node with
+        | inst c t fs =>
+          simp only
+          cases hg : alGet d.name fs with
+          | none => exact good_sc _
+          | some w =>
+            exact hW.dnc i c t fs d.name d w trivial hn (hd i c t fs rfl hn) hdnc (alGet_mem hg)
+        | list _ => exact good_sc _
+        | dict _ => exact good_sc _
+        | set _ => exact good_sc _
+    · rw [hm]; exact good_sc _
+    · exact (hne (by rw [hvi, hcur'])).elim
+
+theorem updateAttr_ps (X : Ctx) (hX : NoClassDnc X) (hW : World X h₀ A TAll) (hM : MakeGood h₀ A X)
+    (self : Ref) (a : Nat) (v : Ref) (kw : List (Nat × Ref))
+    (hv : Good h₀.length A v) (ha : ∀ av, av ∈ kw → Good h₀.length A av.2) :
+    PS h₀ A (updateAttr X self a v kw false) (FreshRef h₀.length) := by
+  unfold updateAttr
+  refine (getInst_ps self).bind (fun p hp => ?_)
+  split
+  · exact PS.throwPy _
+  · rename_i d hdecl
+    have hname := attr?_name hdecl
+    refine (getAttrD_val self a).bind (fun old hold => ?_)
+    have hold' : AttrVal h₀ A self d.name old := by
+      rw [hname]
+      by_cases hlt : p.1 < h₀.length
+      · exact Or.inr ⟨p.1, hp.1, hlt, hold.1 p.1 hp.1 hlt⟩
+      · exact Or.inl (hold.2 (fun i hi => by rw [hp.1] at hi; cases hi; omega))
+    have htr : CbOK h₀.length A (none : Option (CbKind × Cb)) old ∨ Good h₀.length A old :=
+      Or.inl (Or.inl (fun k f h => by cases h))
+    refine (mutateValue_og X hX hW hM
+      { old := old, new := v, ctor := some d.kind, attrs := kw } rfl hv ha htr).bind
+      (fun v1 hv1 => ?_)
+    have hv1' : AttrVal h₀ A self d.name v1 := by
+      rcases hv1.1 with h | h
+      · rw [h]; exact hold'
+      · exact Or.inl h
+    have hd : ∀ i c t fs, self = .obj i → h₀[i]? = some (.inst c t fs) →
+        (X.cd c).attr? d.name = some d := by
+      intro i c t fs hi hn
+      rw [hp.1] at hi
+      cases hi
+      have hlt := lt_of_getElem?_some hn
+      have := hp.2.1 hlt
+      rw [hn] at this
+      cases this
+      rw [hname]; exact hdecl
+    rw [hX p.2.1]
+    refine (protectIfUnchanged_ps X hX hW d self v1 hd hv1').bind (fun v2 hv2 => ?_)
+    exact withAttr_ps X hX hW hM self a v2 hv2
+
+theorem transformAttr_ps (X : Ctx) (hX : NoClassDnc X) (hW : World X h₀ A TAll)
+    (hM : MakeGood h₀ A X) (self : Ref) (a : Nat) (f : Option Cb) (kwf : List (Nat × Cb))
+    (hf : ∀ cb, f = some cb → cb.plain = true) :
+    PS h₀ A (transformAttr X self a f kwf false) (FreshRef h₀.length) := by
+  unfold transformAttr
+  refine (getInst_ps self).bind (fun p hp => ?_)
+  split
+  · exact PS.throwPy _
+  · rename_i d hdecl
+    have hname := attr?_name hdecl
+    refine (getAttrD_val self a).bind (fun old hold => ?_)
+    have hold' : AttrVal h₀ A self d.name old := by
+      rw [hname]
+      by_cases hlt : p.1 < h₀.length
+      · exact Or.inr ⟨p.1, hp.1, hlt, hold.1 p.1 hp.1 hlt⟩
+      · exact Or.inl (hold.2 (fun i hi => by rw [hp.1] at hi; cases hi; omega))
+    have htr : CbOK h₀.length A (f.map (fun cb => (CbKind.transform, cb))) old ∨
+        Good h₀.length A old := by
+      refine Or.inl (Or.inl (fun k g h => ?_))
+      cases f with
+      | none => cases h
+      | some cb =>
+        simp only [Option.map] at h
+        cases h
+        exact hf _ rfl
+    refine (mutateValue_og X hX hW hM
+      { old := old, ctor := some d.kind, transform := f.map (fun cb => (.transform, cb)),
+        attrTransforms := kwf } rfl (good_sc _) (fun av hav => by cases hav) htr).bind
+      (fun v1 hv1 => ?_)
+    have hv1' : AttrVal h₀ A self d.name v1 := by
+      rcases hv1.1 with h | h
+      · rw [h]; exact hold'
+      · exact Or.inl h
+    have hd : ∀ i c t fs, self = .obj i → h₀[i]? = some (.inst c t fs) →
+        (X.cd c).attr? d.name = some d := by
+      intro i c t fs hi hn
+      rw [hp.1] at hi
+      cases hi
+      have hlt := lt_of_getElem?_some hn
+      have := hp.2.1 hlt
+      rw [hn] at this
+      cases this
+      rw [hname]; exact hdecl
+    rw [hX p.2.1]
+    refine (protectIfUnchanged_ps X hX hW d self v1 hd hv1').bind (fun v2 hv2 => ?_)
+    exact withAttr_ps X hX hW hM self a v2 hv2
+
+/-! ### `update`, `transform` (top level) -/
+
+theorem mvConstruct_noctor (X : Ctx) (p : MV) (hc : p.ctor = none) (value : Ref) :
+    mvConstruct X p value = pure (value, p.inplace, false) := by
+  unfold mvConstruct dictAsCtorArgs
+  funext s
+  simp [hc, run_bind]
+
+theorem mvAttrs_nonempty (X : Ctx) (hX : NoClassDnc X) (hW : World X h₀ A TAll)
+    (hM : MakeGood h₀ A X) (p : MV) (hp : p.inplace = false) (hne : p.attrs ≠ [])
+    (ha : ∀ av, av ∈ p.attrs → Good h₀.length A av.2) (value : Ref) (used : Bool) :
+    PS h₀ A (mvAttrs X p value false used) (fun r => FreshRef h₀.length r.1) := by
+  unfold mvAttrs
+  refine PS.ite (fun _ => ?_) (fun _ => ?_)
+  · refine (safeOrProtect_ps X hX hW value false (fun h => by cases h)).bind (fun value' hv' => ?_)
+    rw [hp]
+    have hattrs : ∀ av, av ∈ (if used = true then [] else p.attrs) → Good h₀.length A av.2 := by
+      intro av hav
+      split at hav
+      · cases hav
+      · exact ha av hav
+    exact (guarded_ps X hv'.1 (setAttrs_ps X hX hW hM hv'.1 _ hattrs)).bind
+      (fun _ _ => PS.pure hv'.1)
+  · refine PS.ite (fun _ => PS.throwPy _) (fun hc => ?_)
+    exact (hc (by simpa using hne)).elim
+
+/-- `update(**kw)` with at least one keyword, not in place, returns a new object. -/
+theorem update_ps (X : Ctx) (hX : NoClassDnc X) (hW : World X h₀ A TAll) (hM : MakeGood h₀ A X)
+    (self : Ref) (kw : List (Nat × Ref)) (hkw : kw ≠ [])
+    (ha : ∀ av, av ∈ kw → Good h₀.length A av.2) :
+    PS h₀ A (update X self kw false) (FreshRef h₀.length) := by
+  unfold update mutateValue
+  simp only [mvChoose, mvApply, mvConstruct_noctor, M_pure_bind, bne_self_eq_false,
+    Bool.false_eq_true, if_false, Bool.not_false, if_true, mvAttrTransforms_nil, M_bind_pure]
+  exact (mvAttrs_nonempty X hX hW hM { old := self, attrs := kw } rfl hkw ha self false).bind
+    (fun r hr => PS.pure hr)
+
+/-- `transform(**kwf)` with at least one keyword, not in place, returns a new object. -/
+theorem transform_ps (X : Ctx) (hX : NoClassDnc X) (hW : World X h₀ A TAll) (hM : MakeGood h₀ A X)
+    (self : Ref) (kwf : List (Nat × Cb)) (hkw : kwf ≠ []) :
+    PS h₀ A (transform X self kwf false) (FreshRef h₀.length) := by
+  unfold transform mutateValue
+  simp only [mvChoose, mvApply, mvConstruct_noctor, M_pure_bind, bne_self_eq_false,
+    Bool.false_eq_true, if_false, Bool.not_false, if_true, mvAttrs_nil]
+  unfold mvAttrTransforms
+  simp only
+  refine PS.ite (fun _ => ?_) (fun hc => (hc (by simpa using hkw)).elim)
+  refine (safeOrProtect_ps X hX hW self false (fun h => by cases h)).bind (fun value' hv' => ?_)
+  exact (guarded_ps X hv'.1 (applyAttrTransforms_ps X hX hW hM hv'.1 _)).bind
+    (fun _ _ => PS.pure hv'.1)
+
+/-! ### Element helpers -/
+
+theorem getCollection_ps (X : Ctx) (hX : NoClassDnc X) (hW : World X h₀ A TAll) (self : Ref)
+    (a : Nat) : PS h₀ A (getCollection X self a false) (FreshRef h₀.length) := by
+  unfold getCollection
+  refine (getInst_ps self).bind (fun p _ => ?_)
+  refine (guardM_ps _ _).bind (fun _ _ => ?_)
+  refine (getAttrD_val self a).bind (fun coll _ => ?_)
+  refine PS.ite (fun _ => protect_ps X hX hW coll (good_tall _ _)) (fun hc => ?_)
+  simp at hc
+  rw [hc]
+  exact PS.pure (freshRef_sc _)
+
+theorem ensureColl_ps (fam : Fam) {coll : Ref} (hc : FreshRef h₀.length coll) :
+    PS h₀ A (ensureColl fam coll) (FN h₀.length) := by
+  unfold ensureColl
+  exact PS.ite (fun _ => (createColl_ps fam).mono (fun r hr => hr.fn))
+    (fun hne => PS.pure ⟨hc, hne⟩)
+
+theorem getD_good {n₀ A} {xs : List Ref} (h : ∀ r, r ∈ xs → Good n₀ A r) (k : Nat) :
+    Good n₀ A (xs.getD k (.sc .missing)) := by
+  rw [List.getD_eq_getElem?_getD]
+  cases hk : xs[k]? with
+  | none => exact good_sc _
+  | some x => exact h x (List.mem_of_getElem? hk)
+
+theorem seqExtract_ps (X : Ctx) (ik : Kind) (coll idx : Ref) (raise : Bool) (by' : Option Bool)
+    (hc : FreshRef h₀.length coll) (hi : Good h₀.length A idx) :
+    PS h₀ A (seqExtract X ik coll idx raise by') (fun e => Good h₀.length A e.2) := by
+  unfold seqExtract
+  refine PS.ite (fun _ => PS.pure (good_sc _)) (fun _ => ?_)
+  refine PS.getHeap.bind (fun h _ => ?_)
+  refine (getList_ps coll).bind (fun p hp => ?_)
+  have hxs : ∀ r, r ∈ p.2 → Good h₀.length A r := hp.2.2 (hc p.1 hp.1)
+  simp only
+  refine PS.ite (fun _ => ?_) (fun _ => ?_)
+  · split
+    · split
+      · exact PS.pure (getD_good hxs _)
+      · exact PS.ite (fun _ => PS.throwPy _) (fun _ => PS.pure (good_sc _))
+    · exact PS.throwPy _
+  · split
+    · exact PS.pure hi
+    · exact PS.ite (fun _ => PS.throwPy _) (fun _ => PS.pure hi)
+
+theorem setExtract_ps (coll v : Ref) (raise : Bool) (hv : Good h₀.length A v) :
+    PS h₀ A (setExtract coll v raise) (fun e => Good h₀.length A e.2) := by
+  unfold setExtract
+  refine (getSet_ps coll).bind (fun p _ => ?_)
+  split
+  · refine PS.ite (fun _ => PS.pure hv) (fun _ => ?_)
+    exact PS.ite (fun _ => PS.throwPy _) (fun _ => PS.pure (good_sc _))
+  · exact PS.throwPy _
+
+theorem og_good {old r : Ref} (ho : Good h₀.length A old) (h : r = old ∨ Good h₀.length A r) :
+    Good h₀.length A r := by
+  rcases h with h | h
+  · rw [h]; exact ho
+  · exact h
+
+theorem elemSeq_ps (X : Ctx) (hX : NoClassDnc X) (hW : World X h₀ A TAll) (hM : MakeGood h₀ A X)
+    (d : AttrDecl) {coll : Ref} (op : ElemOp) (hc : FreshRef h₀.length coll)
+    (hargs : ∀ v, v ∈ op.args → Good h₀.length A v) :
+    PS h₀ A (elemSeq X d coll op) (fun _ => True) := by
+  unfold elemSeq
+  cases op with
+  | rm key byIndex =>
+    simp only
+    refine (seqExtract_ps X _ _ _ _ _ hc (hargs key (by simp [ElemOp.args]))).bind (fun e _ => ?_)
+    split
+    · refine (getList_ps coll).bind (fun p hp => ?_)
+      have hj := hc p.1 hp.1
+      split
+      · refine PS.write _ hj ?_
+        intro r hr
+        exact hp.2.2 hj r (List.mem_of_mem_eraseIdx hr)
+      · exact PS.throwPy _
+    · exact PS.pure trivial
+  | add item key insert attrs =>
+    simp only
+    have hitem := hargs item (by simp [ElemOp.args])
+    have hkey := hargs key (by simp [ElemOp.args])
+    have hat : ∀ av, av ∈ attrs → Good h₀.length A av.2 := fun av hav =>
+      hargs av.2 (by simp only [ElemOp.args, List.mem_cons, List.mem_map]; exact Or.inr (Or.inr ⟨av, hav, rfl⟩))
+    refine (seqExtract_ps X _ _ _ _ _ hc hkey).bind (fun e he => ?_)
+    refine (mutateValue_og X hX hW hM _ rfl hitem hat (Or.inr he)).bind (fun v hv => ?_)
+    exact seqInsert_ps X hW _ _ _ _ hc (og_good he hv.1)
+  | upd key item byIndex attrs =>
+    simp only
+    have hitem := hargs item (by simp [ElemOp.args])
+    have hkey := hargs key (by simp [ElemOp.args])
+    have hat : ∀ av, av ∈ attrs → Good h₀.length A av.2 := fun av hav =>
+      hargs av.2 (by simp only [ElemOp.args, List.mem_cons, List.mem_map]; exact Or.inr (Or.inr ⟨av, hav, rfl⟩))
+    refine (seqExtract_ps X _ _ _ _ _ hc hkey).bind (fun e he => ?_)
+    refine (mutateValue_og X hX hW hM _ rfl hitem hat (Or.inr he)).bind (fun v hv => ?_)
+    exact seqInsert_ps X hW _ _ _ _ hc (og_good he hv.1)
+  | tr key f byIndex kwf =>
+    simp only
+    have hkey := hargs key (by simp [ElemOp.args])
+    refine (seqExtract_ps X _ _ _ _ _ hc hkey).bind (fun e he => ?_)
+    refine (mutateValue_og X hX hW hM _ rfl (good_sc _) (fun av hav => by cases hav)
+      (Or.inr he)).bind (fun v hv => ?_)
+    exact seqInsert_ps X hW _ _ _ _ hc (og_good he hv.1)
+
+theorem elemMap_ps (X : Ctx) (hX : NoClassDnc X) (hW : World X h₀ A TAll) (hM : MakeGood h₀ A X)
+    (d : AttrDecl) {coll : Ref} (op : ElemOp) (hc : FreshRef h₀.length coll)
+    (hargs : ∀ v, v ∈ op.args → Good h₀.length A v) :
+    PS h₀ A (elemMap X d coll op) (fun _ => True) := by
+  unfold elemMap
+  cases op with
+  | rm key byIndex =>
+    simp only
+    refine (mapExtract_ps X hW _ _ _ hc.good).bind (fun e _ => ?_)
+    refine (getDict_ps coll).bind (fun p hp => ?_)
+    have hj := hc p.1 hp.1
+    split
+    · refine PS.write _ hj (children_dict_good ?_)
+      intro kv hkv
+      exact good_of_children_dict (hp.2.2 hj) kv (mem_alDel hkv)
+    · exact PS.pure trivial
+  | add item key insert attrs =>
+    simp only
+    have hitem := hargs item (by simp [ElemOp.args])
+    have hat : ∀ av, av ∈ attrs → Good h₀.length A av.2 := fun av hav =>
+      hargs av.2 (by simp only [ElemOp.args, List.mem_cons, List.mem_map]; exact Or.inr (Or.inr ⟨av, hav, rfl⟩))
+    refine (mapExtract_ps X hW _ _ _ hc.good).bind (fun e he => ?_)
+    refine (mutateValue_og X hX hW hM _ rfl hitem hat (Or.inr he)).bind (fun v hv => ?_)
+    exact mapInsert_ps X hW _ _ _ hc (og_good he hv.1)
+  | upd key item byIndex attrs =>
+    simp only
+    have hitem := hargs item (by simp [ElemOp.args])
+    have hat : ∀ av, av ∈ attrs → Good h₀.length A av.2 := fun av hav =>
+      hargs av.2 (by simp only [ElemOp.args, List.mem_cons, List.mem_map]; exact Or.inr (Or.inr ⟨av, hav, rfl⟩))
+    refine (mapExtract_ps X hW _ _ _ hc.good).bind (fun e he => ?_)
+    refine (mutateValue_og X hX hW hM _ rfl hitem hat (Or.inr he)).bind (fun v hv => ?_)
+    exact mapInsert_ps X hW _ _ _ hc (og_good he hv.1)
+  | tr key f byIndex kwf =>
+    simp only
+    refine (mapExtract_ps X hW _ _ _ hc.good).bind (fun e he => ?_)
+    refine (mutateValue_og X hX hW hM _ rfl (good_sc _) (fun av hav => by cases hav)
+      (Or.inr he)).bind (fun v hv => ?_)
+    exact mapInsert_ps X hW _ _ _ hc (og_good he hv.1)
+
+theorem elemSet_ps (X : Ctx) (hX : NoClassDnc X) (hW : World X h₀ A TAll) (hM : MakeGood h₀ A X)
+    (d : AttrDecl) {coll : Ref} (op : ElemOp) (hc : FreshRef h₀.length coll)
+    (hargs : ∀ v, v ∈ op.args → Good h₀.length A v) :
+    PS h₀ A (elemSet X d coll op) (fun _ => True) := by
+  unfold elemSet
+  cases op with
+  | rm key byIndex =>
+    simp only
+    refine (setExtract_ps _ _ _ (hargs key (by simp [ElemOp.args]))).bind (fun e _ => ?_)
+    refine (getSet_ps coll).bind (fun p hp => ?_)
+    split
+    · exact PS.write _ (hc p.1 hp) (fun r hr => by cases hr)
+    · exact PS.pure trivial
+  | add item key insert attrs =>
+    simp only
+    have hitem := hargs item (by simp [ElemOp.args])
+    have hat : ∀ av, av ∈ attrs → Good h₀.length A av.2 := fun av hav =>
+      hargs av.2 (by simp only [ElemOp.args, List.mem_cons, List.mem_map]; exact Or.inr (Or.inr ⟨av, hav, rfl⟩))
+    refine (mutateValue_og X hX hW hM _ rfl hitem hat (Or.inr (good_sc _))).bind (fun v hv => ?_)
+    exact setInsert_ps X _ _ _ _ hc
+  | upd key item byIndex attrs =>
+    simp only
+    have hitem := hargs item (by simp [ElemOp.args])
+    have hkey := hargs key (by simp [ElemOp.args])
+    have hat : ∀ av, av ∈ attrs → Good h₀.length A av.2 := fun av hav =>
+      hargs av.2 (by simp only [ElemOp.args, List.mem_cons, List.mem_map]; exact Or.inr (Or.inr ⟨av, hav, rfl⟩))
+    refine (setExtract_ps _ _ _ hkey).bind (fun e he => ?_)
+    refine (mutateValue_og X hX hW hM _ rfl hitem hat (Or.inr he)).bind (fun v hv => ?_)
+    exact setInsert_ps X _ _ _ _ hc
+  | tr key f byIndex kwf =>
+    simp only
+    have hkey := hargs key (by simp [ElemOp.args])
+    refine (setExtract_ps _ _ _ hkey).bind (fun e he => ?_)
+    refine (mutateValue_og X hX hW hM _ rfl (good_sc _) (fun av hav => by cases hav)
+      (Or.inr he)).bind (fun v hv => ?_)
+    exact setInsert_ps X _ _ _ _ hc
+
+theorem mutateCollection_ps (X : Ctx) (hX : NoClassDnc X) (hW : World X h₀ A TAll)
+    (hM : MakeGood h₀ A X) (d : AttrDecl) (fam : Fam) {coll : Ref} (op : ElemOp)
+    (hc : FreshRef h₀.length coll) (hargs : ∀ v, v ∈ op.args → Good h₀.length A v) :
+    PS h₀ A (mutateCollection X d fam coll op) (FN h₀.length) := by
+  unfold mutateCollection
+  refine (ensureColl_ps fam hc).bind (fun coll' hc' => ?_)
+  refine PS.bind (Q := fun _ => True) ?_ (fun _ _ => PS.pure hc')
+  cases fam with
+  | seq => exact elemSeq_ps X hX hW hM d op hc'.1 hargs
+  | map => exact elemMap_ps X hX hW hM d op hc'.1 hargs
+  | set => exact elemSet_ps X hX hW hM d op hc'.1 hargs
+
+/-- `with_/update_/transform_/without_<item>` not in place. -/
+theorem elemHelper_ps (X : Ctx) (hX : NoClassDnc X) (hW : World X h₀ A TAll) (hM : MakeGood h₀ A X)
+    (self : Ref) (a : Nat) (op : ElemOp) (hargs : ∀ v, v ∈ op.args → Good h₀.length A v) :
+    PS h₀ A (elemHelper X self a op false) (FreshRef h₀.length) := by
+  unfold elemHelper
+  refine (getInst_ps self).bind (fun p _ => ?_)
+  split
+  · exact PS.throwPy _
+  · split
+    · exact PS.throwPy _
+    · refine (getCollection_ps X hX hW self a).bind (fun coll0 h0 => ?_)
+      refine (mutateCollection_ps X hX hW hM _ _ op h0 hargs).bind (fun coll1 h1 => ?_)
+      exact (mutateAttr_ps X hX hW self a coll1 false false false (fun h => by cases h)
+        h1.1.good).mono (fun r hr => hr rfl h1.2)
+
+end og
+/-! ## Every operation not called in place -/
+
+/-- The copy-on-write operations covered by `result_disjoint`: everything not in
+place, except `transform_<a>(f)` with a transform that builds a new list from
+the old items (`append`, `rebuild`), and `update()` / `transform()` without any
+keyword (which return the receiver itself). -/
+def Op.cowCovered : Op → Bool
+  | .construct _ _ => true
+  | .withAttr _ _ _ _ ip => !ip
+  | .updateAttr _ _ _ _ ip => !ip
+  | .transformAttr _ _ f _ ip => !ip && (match f with | some cb => cb.plain | none => true)
+  | .resetAttr _ _ ip => !ip
+  | .elem _ _ _ ip => !ip
+  | .update _ kw ip => !ip && !kw.isEmpty
+  | .transform _ kwf ip => !ip && !kwf.isEmpty
+  | .reset _ ip => !ip
+  | .deepcopy _ => true
+  | .setattr _ _ _ => false
+  | .delattr _ _ => false
+
+theorem Op.cowCovered_inplace {op : Op} (h : op.cowCovered = true) : op.inplace = false := by
+  cases op <;> simp [Op.cowCovered, Op.inplace] at h ⊢ <;> first | exact h | exact h.1
+
+/-- The covered operations keep the provenance invariant and return a new
+object (or a scalar), provided their arguments are allowed. -/
+theorem runOp_ps (X₀ : Ctx) (hX : NoClassDnc X₀) {h₀ : Heap} {A : Nat → Prop}
+    (hW : World X₀ h₀ A TAll) (op : Op) (hcov : op.cowCovered = true)
+    (hargs : ∀ v, v ∈ op.args → Good h₀.length A v) :
+    PS h₀ A (runOp X₀.close op) (FreshRef h₀.length) := by
+  have hXc := noClassDnc_close X₀ hX
+  have hWc : World X₀.close h₀ A TAll := hW.close
+  have hM := makeGood_close X₀ hX hW
+  have hkw : ∀ {kw : List (Nat × Ref)}, (∀ v, v ∈ kw.map (fun av => av.2) → Good h₀.length A v) →
+      ∀ av, av ∈ kw → Good h₀.length A av.2 :=
+    fun h av hav => h av.2 (List.mem_map_of_mem hav)
+  unfold runOp
+  refine PS.getHeap.bind (fun h _ => ?_)
+  refine (guardM_ps _ _).bind (fun _ _ => ?_)
+  cases op with
+  | construct c kw => exact (hM c kw (hkw hargs)).mono (fun r hr => hr.fn.1)
+  | withAttr r a v kw ip =>
+    simp only [Op.cowCovered, Bool.not_eq_true'] at hcov
+    subst hcov
+    exact withAttr_kw_ps X₀.close hXc hWc hM r a v kw (hargs v (by simp [Op.args]))
+      (hkw (fun w hw => hargs w (by simp only [Op.args]; exact List.mem_cons_of_mem _ hw)))
+  | updateAttr r a v kw ip =>
+    simp only [Op.cowCovered, Bool.not_eq_true'] at hcov
+    subst hcov
+    exact updateAttr_ps X₀.close hXc hWc hM r a v kw (hargs v (by simp [Op.args]))
+      (hkw (fun w hw => hargs w (by simp only [Op.args]; exact List.mem_cons_of_mem _ hw)))
+  | transformAttr r a f kwf ip =>
+    simp only [Op.cowCovered, Bool.and_eq_true, Bool.not_eq_true'] at hcov
+    obtain ⟨rfl, hf⟩ := hcov
+    refine transformAttr_ps X₀.close hXc hWc hM r a f kwf ?_
+    intro cb hcb
+    subst hcb
+    exact hf
+  | resetAttr r a ip =>
+    simp only [Op.cowCovered, Bool.not_eq_true'] at hcov
+    subst hcov
+    exact resetAttr_ps X₀.close hXc hWc hM r a
+  | elem r a eop ip =>
+    simp only [Op.cowCovered, Bool.not_eq_true'] at hcov
+    subst hcov
+    exact elemHelper_ps X₀.close hXc hWc hM r a eop hargs
+  | update r kw ip =>
+    simp only [Op.cowCovered, Bool.and_eq_true, Bool.not_eq_true', List.isEmpty_eq_false_iff]
+      at hcov
+    obtain ⟨rfl, hne⟩ := hcov
+    exact update_ps X₀.close hXc hWc hM r kw hne (hkw hargs)
+  | transform r kwf ip =>
+    simp only [Op.cowCovered, Bool.and_eq_true, Bool.not_eq_true', List.isEmpty_eq_false_iff]
+      at hcov
+    obtain ⟨rfl, hne⟩ := hcov
+    exact transform_ps X₀.close hXc hWc hM r kwf hne
+  | reset r ip =>
+    simp only [Op.cowCovered, Bool.not_eq_true'] at hcov
+    subst hcov
+    exact reset_ps X₀.close hXc hWc hM r
+  | deepcopy r => exact deepcopy_ps X₀.close hXc hWc r (good_tall _ _)
+  | setattr _ _ _ => cases hcov
+  | delattr _ _ => cases hcov
+
+/-! ## Which value each field of a new instance gets (`init_fresh`, field by field) -/
+
+section fields
+variable {α β : Type} {n₀ j : Nat} {P : Nat → Ref → Prop}
+
+/-- Every field `(a, v)` of instance `j` satisfies `P a v`. -/
+def FieldsOK (j : Nat) (P : Nat → Ref → Prop) (h : Heap) : Prop :=
+  ∀ c t fs, h[j]? = some (.inst c t fs) → ∀ av, av ∈ fs → P av.1 av.2
+
+/-- `m` keeps `FieldsOK j P` (whether it returns or raises) and a normal result satisfies `Q`. -/
+def SF {α : Type} (n₀ j : Nat) (P : Nat → Ref → Prop) (m : M α) (Q : α → Prop) : Prop :=
+  ∀ s : MS, j < s.heap.length → FieldsOK j P s.heap →
+    (j < (m s).2.heap.length ∧ FieldsOK j P (m s).2.heap) ∧ ∀ a, (m s).1 = .ok a → Q a
+
+theorem SF.pure {a : α} {Q : α → Prop} (h : Q a) : SF n₀ j P (pure a : M α) Q := by
+  intro s hs hf
+  exact ⟨⟨hs, hf⟩, fun b hb => by cases hb; exact h⟩
+
+theorem SF.throwPy {Q : α → Prop} (e : Err) : SF n₀ j P (throwPy e : M α) Q := by
+  intro s hs hf
+  exact ⟨⟨hs, hf⟩, fun b hb => by cases hb⟩
+
+theorem SF.bind {m : M α} {f : α → M β} {Q : α → Prop} {R : β → Prop}
+    (hm : SF n₀ j P m Q) (hf : ∀ a, Q a → SF n₀ j P (f a) R) : SF n₀ j P (m >>= f) R := by
+  intro s hs hfo
+  obtain ⟨hp, hq⟩ := hm s hs hfo
+  rw [run_bind]
+  match hms : m s with
+  | (.ok a, s') =>
+    rw [hms] at hp hq
+    simp only
+    exact hf a (hq a rfl) s' hp.1 hp.2
+  | (.error e, s') =>
+    rw [hms] at hp
+    simp only
+    exact ⟨hp, fun b hb => by cases hb⟩
+
+theorem SF.mono {m : M α} {Q Q' : α → Prop} (h : SF n₀ j P m Q) (hQ : ∀ a, Q a → Q' a) :
+    SF n₀ j P m Q' := by
+  intro s hs hf
+  obtain ⟨hp, hq⟩ := h s hs hf
+  exact ⟨hp, fun a ha => hQ a (hq a ha)⟩
+
+theorem SF.ite {c : Prop} [Decidable c] {m₁ m₂ : M α} {Q : α → Prop}
+    (h₁ : c → SF n₀ j P m₁ Q) (h₂ : ¬ c → SF n₀ j P m₂ Q) :
+    SF n₀ j P (if c then m₁ else m₂) Q := by
+  split
+  · exact h₁ ‹_›
+  · exact h₂ ‹_›
+
+/-- A computation that writes only what it allocates keeps the fields of `j`;
+its value postcondition is taken at the boundary `n₀`. -/
+theorem SF.of_safe {m : M α} {Q : α → Prop} (hj : n₀ ≤ j)
+    (hq : Safe n₀ (fun _ => False) m Q)
+    (hfr : ∀ n, Safe n (fun _ => False) m (fun _ => True)) : SF n₀ j P m Q := by
+  intro s hs hf
+  obtain ⟨_, hq'⟩ := hq s (by omega)
+  obtain ⟨hp, _⟩ := hfr s.heap.length s (Nat.le_refl _)
+  refine ⟨⟨Nat.lt_of_lt_of_le hs hp.mono, ?_⟩, hq'⟩
+  intro c t fs hn
+  rw [hp.frame j hs (fun h => h)] at hn
+  exact hf c t fs hn
+
+theorem SF.getNode_self : SF n₀ j P (getNode j)
+    (fun n => ∀ c t fs, n = .inst c t fs → ∀ av, av ∈ fs → P av.1 av.2) := by
+  intro s hs hf
+  unfold getNode
+  split
+  · rename_i n' hn'
+    refine ⟨⟨hs, hf⟩, ?_⟩
+    intro n hn c t fs hnode
+    cases hn
+    subst hnode
+    exact hf c t fs hn'
+  · exact ⟨⟨hs, hf⟩, fun n hn => by cases hn⟩
+
+theorem SF.tick : SF n₀ j P tick (fun _ => True) := by
+  intro s hs hf
+  unfold SpecVerif.Heap.tick
+  split <;> exact ⟨⟨hs, hf⟩, fun _ _ => trivial⟩
+
+theorem SF.write_self (n : Node)
+    (hn : ∀ c t fs, n = .inst c t fs → ∀ av, av ∈ fs → P av.1 av.2) :
+    SF n₀ j P (write j n) (fun _ => True) := by
+  unfold SpecVerif.Heap.write
+  refine SF.tick.bind (fun _ _ => ?_)
+  intro s hs hf
+  refine ⟨⟨by simp [writeRaw]; exact hs, ?_⟩, fun _ _ => trivial⟩
+  intro c t fs hnode
+  simp only [writeRaw] at hnode
+  rw [List.getElem?_set_self hs] at hnode
+  cases hnode
+  exact hn c t fs rfl
+
+theorem getInst_sf : SF n₀ j P (getInst (.obj j))
+    (fun p => p.1 = j ∧ ∀ av, av ∈ p.2.2.2 → P av.1 av.2) := by
+  unfold getInst
+  simp only
+  refine SF.getNode_self.bind (fun node hn => ?_)
+  cases node with
+  | inst c t fs => exact SF.pure ⟨rfl, hn c t fs rfl⟩
+  | list _ => exact SF.throwPy _
+  | dict _ => exact SF.throwPy _
+  | set _ => exact SF.throwPy _
+
+theorem setThaw_sf (b : Bool) : SF n₀ j P (setThaw j b) (fun _ => True) := by
+  unfold setThaw
+  refine SF.getNode_self.bind (fun node hn => ?_)
+  cases node with
+  | inst c t fs =>
+    refine SF.write_self _ ?_
+    intro c' t' fs' he
+    cases he
+    exact hn c t fs rfl
+  | list _ => exact SF.pure trivial
+  | dict _ => exact SF.pure trivial
+  | set _ => exact SF.pure trivial
+
+theorem rawSet_sf (a : Nat) (v : Ref) (hv : P a v) :
+    SF n₀ j P (rawSet (.obj j) a v) (fun _ => True) := by
+  unfold rawSet
+  refine getInst_sf.bind (fun p hp => ?_)
+  obtain ⟨i, c, t, fs⟩ := p
+  obtain ⟨hi, hfs⟩ := hp
+  simp only at hi hfs
+  subst hi
+  refine SF.write_self _ ?_
+  intro c' t' fs' he
+  cases he
+  intro av hav
+  rcases mem_alSet hav with h | h
+  · rw [h]; exact hv
+  · exact hfs av h
+
+theorem guardM_sf (c : Bool) (e : Err) : SF n₀ j P (guardM c e) (fun _ => True) := by
+  unfold guardM
+  exact SF.ite (fun _ => SF.throwPy _) (fun _ => SF.pure trivial)
+
+theorem getHeap_sf : SF n₀ j P getHeap (fun _ => True) := by
+  intro s hs hf
+  exact ⟨⟨hs, hf⟩, fun _ _ => trivial⟩
+
+/-- In-place `mutate_attr` on `j`: the stored value must satisfy `P`. -/
+theorem mutateAttr_sf (X : Ctx) (a : Nat) (v : Ref) (tc force : Bool)
+    (hv : v ≠ .sc .missing → P a v) :
+    SF n₀ j P (mutateAttr X (.obj j) a v true tc force) (fun _ => True) := by
+  unfold mutateAttr
+  refine SF.ite (fun _ => SF.pure trivial) (fun hne => ?_)
+  refine getInst_sf.bind (fun p _ => ?_)
+  refine (guardM_sf _ _).bind (fun _ _ => ?_)
+  refine getHeap_sf.bind (fun h _ => ?_)
+  refine (guardM_sf _ _).bind (fun _ _ => ?_)
+  simp only [Bool.true_or, Bool.not_true, Bool.false_eq_true, if_false]
+  exact (rawSet_sf a v (hv hne)).bind (fun _ _ => SF.pure trivial)
+
+end fields
+
+/-! ### Prepared values: the incoming value or a new one -/
+
+section same
+variable {n₀ : Nat} {W : Nat → Prop}
+
+theorem mutateValue0_same (X : Ctx) (hM : MakeSafe n₀ W X) (p : MV) (ho : FreshRef n₀ p.old) :
+    Safe n₀ W (mutateValue0 X p) (fun r => r = p.new ∨ FreshRef n₀ r) := by
+  unfold mutateValue0
+  have h1 : Safe n₀ W (mvApply (mvChoose p).2 (mvChoose p).1)
+      (fun r => r = p.new ∨ FreshRef n₀ r) := by
+    refine (mvApply_safe _ _).mono (fun r hr => ?_)
+    rcases hr with rfl | h
+    · unfold mvChoose
+      split
+      · exact Or.inl rfl
+      · split
+        · exact Or.inr ho
+        · exact Or.inr (freshRef_sc _)
+    · exact Or.inr h
+  refine h1.bind (fun v1 hv1 => ?_)
+  refine (mvConstruct_safe X hM _ v1).bind (fun r hr => ?_)
+  have hr' : r.1 = p.new ∨ FreshRef n₀ r.1 := by
+    rcases hr with ⟨h, _⟩ | h
+    · rw [h]; exact hv1
+    · exact Or.inr h
+  refine (mvApply_safe _ _).mono (fun x hx => ?_)
+  rcases hx with rfl | h
+  · exact hr'
+  · exact Or.inr h
+
+theorem collPrepare_same (X : Ctx) (hM : MakeSafe n₀ W X) (d : AttrDecl) (fam : Fam) (coll : Ref) :
+    Safe n₀ W (collPrepare X d fam coll) (fun r => r = coll ∨ FreshRef n₀ r) := by
+  unfold collPrepare
+  have h1 : Safe n₀ W
+      (if (coll = .sc .none || coll = .sc .missing) = true then createColl fam else pure coll)
+      (fun r => r = coll ∨ FreshRef n₀ r) :=
+    Safe.ite (fun _ => (createColl_safe fam).mono (fun r hr => Or.inr hr))
+      (fun _ => Safe.pure (Or.inl rfl))
+  refine h1.bind (fun coll' hc' => ?_)
+  refine Safe.getHeap.bind (fun h _ => ?_)
+  refine Safe.ite (fun _ => ?_) (fun _ => Safe.pure hc')
+  refine (createColl_safe fam).bind (fun fresh hf => ?_)
+  exact (addItems_safe X hM d fam _ hf.writable).bind (fun _ _ => Safe.pure (Or.inr hf))
+
+theorem prepareAttrValue0_same (X : Ctx) (hM : MakeSafe n₀ W X) (d : AttrDecl) (v : Ref) :
+    Safe n₀ W (prepareAttrValue0 X d v) (fun r => r = v ∨ FreshRef n₀ r) := by
+  unfold prepareAttrValue0
+  refine (mutateValue0_same X hM _ (freshRef_sc _)).bind (fun v1 hv1 => ?_)
+  split
+  · refine (collPrepare_same X hM d _ v1).mono (fun r hr => ?_)
+    rcases hr with rfl | h
+    · exact hv1
+    · exact Or.inr h
+  · exact Safe.pure hv1
+
+end same
+section fields2
+variable {α β : Type} {n₀ j : Nat} {P : Nat → Ref → Prop}
+
+theorem SF.run {m : M α} {Q : α → Prop} {s s' : MS} {a : α} (h : SF n₀ j P m Q)
+    (hrun : m s = (.ok a, s')) (hj : j < s.heap.length) (hf : FieldsOK j P s.heap) :
+    FieldsOK j P s'.heap ∧ Q a := by
+  obtain ⟨hp, hq⟩ := h s hj hf
+  rw [hrun] at hp hq
+  exact ⟨hp.2, hq a rfl⟩
+
+theorem setAttr_sf (X : Ctx) (hM : ∀ n W, MakeSafe n W X) (hj : n₀ ≤ j)
+    (hP : ∀ a v, FreshRef n₀ v → P a v) (a : Nat) (v : Ref) (force : Bool) (hv : P a v) :
+    SF n₀ j P (setAttr X (.obj j) a v force) (fun _ => True) := by
+  unfold setAttr
+  refine getInst_sf.bind (fun p _ => ?_)
+  have h1 : SF n₀ j P
+      (match (X.cd p.2.1).attr? a with
+        | some d => prepareAttrValue0 X d v
+        | none => pure v) (fun v' => P a v') := by
+    split
+    · rename_i d _
+      refine (SF.of_safe hj (prepareAttrValue0_same X (hM n₀ _) d v)
+        (fun n => prepareAttrValue0_safe X (hM n _) d v)).mono (fun r hr => ?_)
+      rcases hr with rfl | h
+      · exact hv
+      · exact hP a r h
+    · exact SF.pure hv
+  refine h1.bind (fun v' hv' => ?_)
+  exact (mutateAttr_sf X a v' true force (fun _ => hv')).bind (fun _ _ => SF.pure trivial)
+
+theorem initAttrs_sf (X : Ctx) (hX : NoClassDnc X) (hM : ∀ n W, MakeSafe n W X) (hj : n₀ ≤ j)
+    (hP : ∀ a v, FreshRef n₀ v → P a v) (c : Nat) (kw : List (Nat × Ref)) (copyArgs : Bool)
+    (sel : AttrDecl → Bool) :
+    ∀ ds, (∀ d, d ∈ ds → sel d = true → (copyArgs && !d.dnc) = false →
+        ∀ v, alGet d.name kw = some v → P d.name v) →
+      SF n₀ j P (initAttrs X (.obj j) c kw copyArgs sel ds) (fun _ => True) := by
+  intro ds
+  induction ds with
+  | nil => intro _; exact SF.pure trivial
+  | cons d ds ih =>
+    intro hkw
+    have ih' := ih (fun d' hd' => hkw d' (List.mem_cons_of_mem _ hd'))
+    unfold initAttrs
+    refine SF.bind (Q := fun _ => True) ?_ (fun _ _ => ih')
+    refine SF.ite (fun hsel => ?_) (fun _ => SF.pure trivial)
+    simp only
+    have hsup : (copyArgs && !d.dnc) = false →
+        P d.name ((alGet d.name kw).getD (.sc .missing)) := by
+      intro hc
+      cases hv : alGet d.name kw with
+      | none => exact hP _ _ (freshRef_sc _)
+      | some v => exact hkw d List.mem_cons_self hsel hc v hv
+    have h1 : SF n₀ j P
+        (if ((alGet d.name kw).getD (.sc .missing) != .sc .missing) = true then
+            (if (copyArgs && !d.dnc) = true then protect X ((alGet d.name kw).getD (.sc .missing))
+             else pure ((alGet d.name kw).getD (.sc .missing)))
+          else lookupDefaultFor X d c) (fun v => P d.name v) :=
+      SF.ite
+        (fun _ => SF.ite
+          (fun _ => (SF.of_safe hj (protect_safe X hX _)
+            (fun n => (protect_safe X hX _).true)).mono (fun r hr => hP _ r hr))
+          (fun hc => SF.pure (hsup (by simpa using hc))))
+        (fun _ => (SF.of_safe hj (lookupDefaultFor_safe X hX (hM n₀ _) _ _)
+          (fun n => (lookupDefaultFor_safe X hX (hM n _) _ _).true)).mono (fun r hr => hP _ r hr))
+    refine h1.bind (fun v hv => ?_)
+    exact SF.ite (fun _ => setAttr_sf X hM hj hP _ _ _ hv) (fun _ => SF.pure trivial)
+
+end fields2
+
+section parent
+variable {n₀ : Nat} {W : Nat → Prop}
+
+/-- `parent_kwargs`: each value is new, or the argument supplied for a `do_not_copy` attribute. -/
+theorem parentKwargs_vals (X : Ctx) (hX : NoClassDnc X) (hM : MakeSafe n₀ W X) (c specC : Nat)
+    (kw : List (Nat × Ref)) :
+    ∀ ds, Safe n₀ W (parentKwargs X c specC kw ds)
+      (fun pk => ∀ av, av ∈ pk → FreshRef n₀ av.2 ∨
+        ∃ d, d ∈ ds ∧ d.name = av.1 ∧ d.dnc = true ∧ alGet d.name kw = some av.2) := by
+  intro ds
+  induction ds with
+  | nil => exact Safe.pure (fun av hav => by cases hav)
+  | cons d ds ih =>
+    have ih' : Safe n₀ W (parentKwargs X c specC kw ds)
+        (fun pk => ∀ av, av ∈ pk → FreshRef n₀ av.2 ∨
+          ∃ d', d' ∈ d :: ds ∧ d'.name = av.1 ∧ d'.dnc = true ∧ alGet d'.name kw = some av.2) :=
+      ih.mono (fun pk h av hav => (h av hav).imp id
+        (fun ⟨d', hd', h⟩ => ⟨d', List.mem_cons_of_mem _ hd', h⟩))
+    unfold parentKwargs
+    refine Safe.ite (fun _ => ih') (fun _ => ?_)
+    have h1 : Safe n₀ W
+        (match alGet d.name kw with
+          | some v => if d.dnc = true then pure v else protect X v
+          | none => lookupDefaultFor X d c)
+        (fun v => FreshRef n₀ v ∨ (d.dnc = true ∧ alGet d.name kw = some v)) := by
+      split
+      · rename_i v hv
+        exact Safe.ite (fun hd => Safe.pure (Or.inr ⟨hd, hv⟩))
+          (fun _ => (protect_safe X hX _).mono (fun r hr => Or.inl hr))
+      · exact (lookupDefaultFor_safe X hX hM _ _).mono (fun r hr => Or.inl hr)
+    refine h1.bind (fun v hv => ?_)
+    refine ih'.bind (fun rest hrest => Safe.pure ?_)
+    split
+    · exact hrest
+    · intro av hav
+      rcases List.mem_cons.1 hav with h | h
+      · rw [h]
+        exact hv.imp id (fun ⟨h1, h2⟩ => ⟨d, List.mem_cons_self, rfl, h1, h2⟩)
+      · exact hrest av h
+
+end parent
+
+/-- The value stored for attribute `a`: new, or the argument supplied for `a`
+when `a` is declared `do_not_copy`. -/
+def InitField (X : Ctx) (n₀ c : Nat) (kw : List (Nat × Ref)) (a : Nat) (v : Ref) : Prop :=
+  FreshRef n₀ v ∨ ∃ d, d ∈ (X.cd c).attrs ∧ d.name = a ∧ d.dnc = true ∧ alGet a kw = some v
+
+/-- **`init_fresh`, field by field**: after a successful `Cls(**kw)` every field of
+the new instance holds a scalar, an object allocated by the constructor, or —
+only for an attribute declared `do_not_copy` — the supplied argument itself. -/
+theorem constructBody_fields (X : Ctx) (hX : NoClassDnc X) (hM : ∀ n W, MakeSafe n W X)
+    (c : Nat) (kw : List (Nat × Ref)) {s s' : MS} {r : Ref}
+    (h : constructBody X c kw s = (.ok r, s')) :
+    r = .obj s.heap.length ∧ FieldsOK s.heap.length (InitField X s.heap.length c kw) s'.heap := by
+  unfold constructBody at h
+  simp only at h
+  obtain ⟨u, s1, h1, h2⟩ := bind_ok_inv h
+  cases guardM_run h1
+  obtain ⟨i, s2, h3, h4⟩ := bind_ok_inv h2
+  obtain ⟨rfl, hheap⟩ := alloc_run h3
+  have hlt : s.heap.length < s2.heap.length := by rw [hheap]; simp
+  have hf0 : FieldsOK s.heap.length (InitField X s.heap.length c kw) s2.heap := by
+    intro c' t fs hn
+    rw [hheap] at hn
+    simp at hn
+    obtain ⟨_, _, rfl⟩ := hn
+    intro av hav
+    cases hav
+  have hP : ∀ a v, FreshRef s.heap.length v → InitField X s.heap.length c kw a v :=
+    fun a v hv => Or.inl hv
+  have hj : s.heap.length ≤ s.heap.length := Nat.le_refl _
+  refine (fun hh : FieldsOK _ _ s'.heap ∧ r = .obj s.heap.length => ⟨hh.2, hh.1⟩)
+    (SF.run (n₀ := s.heap.length) (Q := fun x => x = Ref.obj s.heap.length) ?_ h4 hlt hf0)
+  refine (setThaw_sf true).bind (fun _ _ => ?_)
+  refine SF.bind (Q := fun _ => True) ?_ (fun _ _ => ?_)
+  · refine SF.ite (fun _ => ?_) (fun _ => SF.pure trivial)
+    refine (SF.of_safe hj (parentKwargs_vals X hX (hM _ _) _ _ _ _)
+      (fun n => (parentKwargs_safe X hX (hM n _) _ _ _ _))).bind (fun pk hpk => ?_)
+    refine initAttrs_sf X hX hM hj hP _ _ _ _ _ ?_
+    intro d hd _ _ v hv
+    rcases hpk _ (alGet_mem hv) with hfr | ⟨d', hd', hname, hdnc, hget⟩
+    · exact Or.inl hfr
+    · simp only at hname hget
+      exact Or.inr ⟨d', hd', hname, hdnc, by rw [← hname]; exact hget⟩
+  · refine (initAttrs_sf X hX hM hj hP _ _ _ _ _ ?_).bind (fun _ _ => ?_)
+    · intro d hd _ hc v hv
+      have hdnc : d.dnc = true := by
+        cases hdd : d.dnc with
+        | true => rfl
+        | false => rw [hdd] at hc; simp at hc
+      exact Or.inr ⟨d, hd, rfl, hdnc, hv⟩
+    · exact (setThaw_sf false).bind (fun _ _ => SF.pure rfl)
+
+theorem construct_fields (X : Ctx) (hX : NoClassDnc X) (fuel c : Nat) (kw : List (Nat × Ref))
+    {s s' : MS} {r : Ref} (h : construct X fuel c kw s = (.ok r, s')) :
+    r = .obj s.heap.length ∧ FieldsOK s.heap.length (InitField X s.heap.length c kw) s'.heap := by
+  cases fuel with
+  | zero => unfold construct at h; cases h
+  | succ fuel =>
+    unfold construct at h
+    exact constructBody_fields _ (noClassDnc_with_make X hX _)
+      (fun n W c' kw' => construct_safe X hX fuel c' kw') c kw h
 
 
 end SpecVerif.Heap
